@@ -50,7 +50,11 @@ def _snapshot(prefix):
     import copy
     import inspect
 
-    snap = {"mods": {}, "names": {}}
+    import types
+
+    import numpy as _np
+
+    snap = {"mods": {}, "names": {}, "bind": {}, "arrays": {}}
     for name, mod in list(sys.modules.items()):
         if mod is None or not (name == prefix or name.startswith(prefix + ".")):
             continue
@@ -58,6 +62,10 @@ def _snapshot(prefix):
         for k, v in list(vars(mod).items()):
             if k.startswith("__"):
                 continue
+            if not isinstance(v, (types.ModuleType, types.FunctionType, type)):
+                snap["bind"][(name, k)] = v  # module globals that are rebound later (counters, buffers, flags)
+                if isinstance(v, _np.ndarray):
+                    snap["arrays"][(name, k)] = v.copy()
             if isinstance(v, (dict, list, set)):
                 try:
                     snap["mods"][(name, None, k)] = copy.deepcopy(v)
@@ -94,6 +102,20 @@ def reset_state(prefix="score_analysis"):
         elif isinstance(cur, set):
             cur.clear()
             cur.update(copy.deepcopy(v0))
+    for (name, k), v0 in snap["bind"].items():
+        mod = sys.modules.get(name)
+        if mod is not None and vars(mod).get(k, v0) is not v0:
+            setattr(mod, k, v0)
+    for (name, k), a0 in snap["arrays"].items():
+        mod = sys.modules.get(name)
+        cur = vars(mod).get(k) if mod is not None else None
+        if cur is not None and cur.shape == a0.shape:
+            try:
+                cur[...] = a0
+            except Exception:  # noqa: BLE001
+                setattr(mod, k, a0.copy())
+        elif mod is not None:
+            setattr(mod, k, a0.copy())
     for name, names in snap["names"].items():
         mod = sys.modules.get(name)
         if mod is None:
